@@ -89,6 +89,19 @@ def h_dmrg_numeric(V, family, N, seed, method):
         V.check('projected-run-is-orthogonal-to-the-listed-state', abs(mps.vdot(gs, phi)) <= 1e-5)
         w = dense_in_space(ops, phi)
         V.check('projected-run-targets-an-excited-level', np.real(np.vdot(w, Hm @ w)) >= ev[0] - 1e-9 and min(abs(ev[1:] - out.energy)) <= 1e-5)
+    # 2-site DMRG started from a PRODUCT state of the sector grows the bonds and reaches the ground state of the sector
+    if method == '2site':
+        nocc = n if isinstance(n, int) else None
+        if cls == 'Spin12':
+            vs = [ops.vec_z(-1 if (sym == 'Z2' and k == 0) else 1) for k in range(N)]
+        else:
+            vs = [ops.vec_n(1 if k < (nocc or 0) else 0) for k in range(N)]
+        chi = mps.product_mps(vs)
+        w0 = dense_in_space(ops, chi)
+        if np.linalg.norm(np.delete(w0, idx)) <= 1e-12:                 # the product state lies in the sector under study
+            o = mps.dmrg_(chi, H, method='2site', max_sweeps=20, opts_eigs={'hermitian': True, 'ncv': 8, 'which': 'SR'}, opts_svd={'D_total': 64, 'tol': 1e-14})
+            e0 = float(np.real(np.vdot(w0, Hm @ w0)))
+            V.check('product-initial-state:2site-run-lowers-the-energy-to-an-eigenvalue-of-the-sector', min(abs(ev - o.energy)) <= 1e-6 and o.energy <= e0 + 1e-9)
     # a canonical initial state with a norm factor, and truncation that binds on every bond: the result is still normalised
     for label, fac, D in (('initial-norm-factor', 3.0, 64), ('binding-truncation', 1.0, 1)):
         if method == '1site' and D == 1:
@@ -158,6 +171,19 @@ def h_tdvp_numeric(V, family, N, seed, method, order):
                 # norm on the first site tensor (the '1site' sweep moves it to psi.factor) -- an observation, not demanded here
                 V.check('real-time:state-canonical-towards-first', bool(psi.is_canonical(to='first', tol=1e-8)))
         V.check('one-result-per-snapshot', k == len(times) - 1)
+    # a PRODUCT state (one block per tensor, one element per vector handed to expmv): the 2-site methods must grow the bonds
+    if method != '1site':
+        if cls == 'Spin12':
+            vs = [ops.vec_z(1 if k % 2 == 0 else -1) for k in range(N)] if sym != 'dense' else [ops.vec_z(1 if k % 2 == 0 else -1) for k in range(N)]
+        else:
+            vs = [ops.vec_n(k % 2) for k in range(N)]
+        psi = mps.product_mps(vs)
+        v0 = dense_in_space(ops, psi)
+        for out in mps.tdvp_(psi, H, times=(0.0, 0.2), dt=0.05, u=1j, method=method, order=order, opts_expmv={'hermitian': True, 'tol': 1e-12}, **opts):
+            pass
+        ref = scipy.linalg.expm(-1j * 0.2 * Hm) @ v0
+        V.check('product-initial-state:bonds-grow-and-the-evolved-state-equals-expm(-u.t.H)',
+                np.linalg.norm(dense_in_space(ops, psi) - ref) <= (5e-5 if order == '2nd' else 1e-6) * max(1.0, np.linalg.norm(ref)))
     # an initial state that is NOT canonical (as random_mps returns it): tdvp_ canonizes it first
     ops.random_seed(seed + 3)
     psi = mps.random_mps(I, D_total=64, dtype='complex128', **kw)
